@@ -8,7 +8,9 @@ def run(pid, tier, seed, ROOT, REPO, WORK):
     impl = os.path.join(WORK, 'serde_impl.txt'); model = os.path.join(WORK, 'serde_model.txt')
     p = subprocess.run([h, 'serde', '--seed', str(seed), '--count', str(count)], stdout=open(impl, 'w'), stderr=subprocess.PIPE, text=True)
     if p.returncode != 0:
-        out['violations'].append(('serde: the harness died (panic in serialize/deserialize?): ' + p.stderr[-300:], impl)); return out
+        path = os.path.join(ROOT, 'replays'); os.makedirs(path, exist_ok=True)
+        path = os.path.join(path, f'{pid}-serde-died.txt'); open(path, 'w').write(open(impl).read()[-4000:] + '\n' + p.stderr[-3000:] + f'\n\nreplay: harness serde --seed {seed} --count {count}\n')
+        out['violations'].append(('serde: the harness died (panic in serialize/deserialize?): ' + p.stderr[-300:].replace('\n', ' '), path)); return out
     subprocess.run([d, 'serde', impl], stdout=open(model, 'w'))
     il = [l.rstrip('\n') for l in open(impl)]
     cases = [l for l in il if l.startswith('case ')]
@@ -33,6 +35,12 @@ def run(pid, tier, seed, ROOT, REPO, WORK):
     for l in reent:
         if 'json=[1,0,"first"]' not in l:
             bad.append('a write during serialization: the value being serialized was destroyed or replaced under the serializer: ' + l)
+    shut = [l for l in il if l.startswith('shutdown ')]
+    for l in shut:
+        if l != 'shutdown ok=1 json=[7,"x"]|{"field0":5,"field1":"FOO","field2":null}':
+            bad.append('serialization from a thread-local destructor after the crate\'s thread-local is gone: ' + l)
+    if len(shut) != 1:
+        bad.append(f'shutdown serialization case: {len(shut)} of 1 ran')
     if len(reent) != 6:
         bad.append(f'reentrant serialization cases: {len(reent)} of 6 ran')
     out['coverage'] = {'evaluations': len(cases) + len(typed), 'distinct_nontrivial': len([p for p in distinct if ' ' in p]) + 1,
